@@ -88,4 +88,455 @@ theorem settingJson_wf (e : SettingEntry) (h : e.WF) : (settingJson e).wf = true
     have := ddaJson_wf d (h.dda d hdda)
     simp [Json.wf, wfMembers, jstr, keysOf, jkey, dealJson_wf, this]
 
+/-! ### the parser on the written records -/
+theorem get_cons (k k' : List Char) (v : Json) (r : List (List Char × Json)) :
+    (Json.obj ((k, v) :: r)).get? k' = if k = k' then some v else (Json.obj r).get? k' := by
+  unfold Json.get?
+  simp only [List.find?_cons]
+  by_cases h : k = k'
+  · simp [h]
+  · have hb : (k == k') = false := beq_eq_false_iff_ne.2 h
+    rw [hb, if_neg h]
+
+theorem mapM_id_some {α : Type} (k : α → Option α) (l : List α) (h : ∀ x ∈ l, k x = some x) :
+    l.mapM k = some l := by
+  have := mapM_map_some id k l h
+  simpa using this
+
+theorem get_nil (k' : List Char) : (Json.obj []).get? k' = none := rfl
+
+theorem strToCard_cardStr (c : Card) (h : c.ok = true) : strToCard? (cardStr c) = some c :=
+  C15.card_str_round_trip c (mem_deck_of_ok h)
+
+theorem strToCall_callStr (c : Call) : strToCall? (callStr c) = some c :=
+  C15.bid_str_round_trip c (C15.calls_complete.2 c)
+
+theorem strToVul_vulStr (v : Vul) : strToVul? (vulStr v) = some v := by cases v <;> decide
+
+theorem sideOfName_NS : sideOfName? (jkey "NS") = some .NS := by decide
+theorem sideOfName_EW : sideOfName? (jkey "EW") = some .EW := by decide
+
+theorem handOfJsonVal_deal (h : Hands) (hw : HandsWF h) (p : Seat) :
+    handOfJsonVal? (.arr ((dealToJson h p).map jstr)) = some (sortAsc (h p)) := by
+  have hp := sortAsc_perm (h p)
+  have h1 : ((dealToJson h p).map jstr).mapM Json.str? = some (dealToJson h p) :=
+    mapM_map_some jstr Json.str? _ fun _ _ => rfl
+  simp only [handOfJsonVal?, h1, Option.bind_some]
+  rw [handOfJson?, dealToJson, mapM_strToCard _ fun c hc => (hw p).2 c (hp.mem_iff.1 hc)]
+  simp only [Option.map_some]
+  rw [dedup_of_nodup _ (hp.nodup_iff.2 (hw p).1)]
+
+theorem handsOfJson_dealJson (h : Hands) (hw : HandsWF h) :
+    handsOfJson? (dealJson h) = some fun p => sortAsc (h p) := by
+  have e : (fun p : Seat => match p with
+      | .N => sortAsc (h .N) | .E => sortAsc (h .E) | .S => sortAsc (h .S) | .W => sortAsc (h .W)) =
+      fun p => sortAsc (h p) := by funext p; cases p <;> rfl
+  simp [handsOfJson?, dealJson, get_cons, jkey, handOfJsonVal_deal h hw]
+  exact e
+
+theorem ddaOfJson_ddaJson (d : Dda) : ddaOfJson? (ddaJson d) = some d := by
+  simp only [ddaOfJson?, ddaJson]
+  apply mapM_map_some
+  rintro ⟨p, row⟩ _
+  simp [seatOfName_name, Json.obj?]
+  rw [mapM_id_some]
+  · rfl
+  · rintro ⟨s, n⟩ _
+    simp [suitOfKey?, suitOfName_name]
+
+theorem contract_rt : ∀ b : Fin 35, ∀ x xx : Bool, ∀ v ∈ Vul.all, ∀ d ∈ C15.seatOpts,
+    strToContract? (contractStr ⟨some b, x, xx, v, d⟩) v d = some ⟨some b, x || xx, xx, v, d⟩ := by
+  decide +kernel
+
+theorem vul_mem_all (v : Vul) : v ∈ Vul.all := by cases v <;> decide
+theorem seatOpt_mem (d : Option Seat) : d ∈ C15.seatOpts := by
+  cases d with
+  | none => decide
+  | some p => cases p <;> decide
+
+theorem strToContract_contractStr (c : Contract) (h : c.isPassedOut = true → c.declarer = none) :
+    strToContract? (contractStr c) c.vul c.declarer = some c.norm := by
+  obtain ⟨fb, x, xx, v, d⟩ := c
+  cases fb with
+  | none =>
+    have : d = none := h rfl
+    subst this
+    exact C15.passed_out_text_round_trip x xx v (vul_mem_all v)
+  | some b => exact contract_rt b x xx v (vul_mem_all v) d (seatOpt_mem d)
+
+theorem trickOfJson_trickJson (t : Trick) (h : ∀ c ∈ t.cards, c.ok = true) :
+    trickOfJson? (trickJson t) = some t := by
+  have : (t.cards.map fun c => jstr (cardStr c)).mapM (fun c => c.str?.bind strToCard?) = some t.cards :=
+    mapM_map_some _ _ _ fun c hc => by simp [jstr, Json.str?, strToCard_cardStr c (h c hc)]
+  simp [trickOfJson?, trickJson, get_cons, jkey, jstr, Json.str?, Json.arr?, seatOfName_name] at this ⊢
+  simp [this]
+
+theorem settingOfJson_settingJson (e : SettingEntry) (h : e.WF) :
+    settingOfJson? (settingJson e) = some e.readBack := by
+  have hh := handsOfJson_dealJson e.deal h.hands
+  unfold settingJson
+  cases hd : e.dda with
+  | none =>
+    simp [settingOfJson?, get_cons, get_nil, jkey, jstr, Json.str?, seatOfName_name, strToVul_vulStr, hh,
+      SettingEntry.readBack, hd]
+  | some d =>
+    simp [settingOfJson?, get_cons, jkey, jstr, Json.str?, seatOfName_name, strToVul_vulStr, hh,
+      SettingEntry.readBack, hd, ddaOfJson_ddaJson]
+
+theorem settingOfJson_logJson (e : LogEntry) (h : e.WF) : settingOfJson? (logJson e) = some e.setting := by
+  have hh := handsOfJson_dealJson e.deal h.hands
+  unfold logJson
+  cases hd : e.dda with
+  | none =>
+    simp [settingOfJson?, get_cons, get_nil, jkey, jstr, Json.str?, seatOfName_name, strToVul_vulStr, hh,
+      LogEntry.setting, hd]
+  | some d =>
+    simp [settingOfJson?, get_cons, jkey, jstr, Json.str?, seatOfName_name, strToVul_vulStr, hh,
+      LogEntry.setting, hd, ddaOfJson_ddaJson]
+
+theorem str_str (s : List Char) : (Json.str s).str? = some s := rfl
+theorem seatOfName_lits : seatOfName? ['N'] = some .N ∧ seatOfName? ['E'] = some .E ∧
+    seatOfName? ['S'] = some .S ∧ seatOfName? ['W'] = some .W := ⟨rfl, rfl, rfl, rfl⟩
+theorem sideOfName_lits : sideOfName? ['N', 'S'] = some .NS ∧ sideOfName? ['E', 'W'] = some .EW := by decide
+
+theorem logOfJson_logJson (e : LogEntry) (h : e.WF) : logOfJson? (logJson e) = some e.readBack := by
+  have hs := settingOfJson_logJson e h
+  have hbids : (e.bids.map fun c => Json.str (callStr c)).mapM (fun b => b.str?.bind strToCall?) = some e.bids :=
+    mapM_map_some _ _ _ fun c _ => by simp [Json.str?, strToCall_callStr]
+  have hplay : ∀ ts, e.play = some ts → (ts.map trickJson).mapM trickOfJson? = some ts := fun ts hts =>
+    mapM_map_some _ _ _ fun t ht => trickOfJson_trickJson t (h.play ts hts t ht)
+  have hc := strToContract_contractStr e.contract h.noDeclarer
+  have hdecl := h.declarer
+  have hnd := h.noDeclarer
+  simp only [logOfJson?, hs, Option.bind_eq_bind, Option.bind_some]
+  cases hfb : e.contract.finalBid with
+  | none =>
+    have hpo : e.contract.isPassedOut = true := by simp [Contract.isPassedOut, hfb]
+    have hdn := hnd hpo
+    rw [hdn] at hc
+    cases hp : e.play with
+    | none =>
+      cases ht : e.tricks <;>
+      simp [logJson, get_cons, jkey, jstr, str_str, hpo, LogEntry.setting, hc, hbids, hp, ht, seatOfName_lits,
+        sideOfName_lits, LogEntry.readBack, -List.mapM_map]
+    | some ts =>
+      have := hplay ts hp
+      cases ht : e.tricks <;>
+      simp [logJson, get_cons, jkey, jstr, str_str, hpo, LogEntry.setting, hc, hbids, hp, ht, seatOfName_lits,
+        sideOfName_lits, LogEntry.readBack, this, -List.mapM_map]
+  | some b =>
+    have hpo : e.contract.isPassedOut = false := by simp [Contract.isPassedOut, hfb]
+    obtain ⟨p, hdp⟩ := Option.isSome_iff_exists.1 (hdecl hpo)
+    rw [hdp] at hc
+    cases hp : e.play with
+    | none =>
+      cases ht : e.tricks <;>
+      simp [logJson, get_cons, jkey, jstr, str_str, hpo, LogEntry.setting, hc, hbids, hp, ht, seatOfName_lits,
+        sideOfName_lits, LogEntry.readBack, hdp, seatOptStr, seatOfName_name, -List.mapM_map]
+    | some ts =>
+      have := hplay ts hp
+      cases ht : e.tricks <;>
+      simp [logJson, get_cons, jkey, jstr, str_str, hpo, LogEntry.setting, hc, hbids, hp, ht, seatOfName_lits,
+        sideOfName_lits, LogEntry.readBack, hdp, seatOptStr, seatOfName_name, this, -List.mapM_map]
+
+/-- what "exactly as written" means field by field.  The doubling status of a passed-out contract is read back as
+`Dbl.none` whatever the two stored flags were (the text `Passed_out` does not carry them). -/
+theorem readBack_fields (e : LogEntry) (h : e.WF) :
+    let r := e.readBack
+    r.boardId = e.boardId ∧ r.dealer = e.dealer ∧ r.vul = e.contract.vul ∧ (∀ p, (r.hands p).Perm (e.deal p)) ∧
+    r.bids = some e.bids ∧ r.contract.finalBid = e.contract.finalBid ∧
+    r.contract.dbl = (if e.contract.isPassedOut then Dbl.none else e.contract.dbl) ∧
+    r.contract.vul = e.contract.vul ∧ r.contract.declarer = e.contract.declarer ∧ r.declarer = e.contract.declarer ∧
+    r.play = e.play ∧ r.tricks = e.tricks ∧ r.scoreType = some e.scoring.value ∧
+    r.scores = some [(.NS, e.scoreNS), (.EW, e.scoreEW)] ∧ r.dda = e.dda ∧
+    r.players = some [(.N, e.north), (.E, e.east), (.S, e.south), (.W, e.west)] := by
+  have hnd := h.noDeclarer
+  refine ⟨rfl, rfl, rfl, fun p => sortAsc_perm _, rfl, ?_, ?_, ?_, ?_, ?_, rfl, rfl, rfl, rfl, rfl, rfl⟩
+  all_goals
+    revert hnd
+    cases hfb : e.contract.finalBid <;> cases hx : e.contract.x <;> cases hxx : e.contract.xx <;>
+      simp [LogEntry.readBack, Contract.norm, Contract.isPassedOut, Contract.dbl, hfb, hx, hxx] <;>
+      intro hd <;> simp [hd]
+
+/-- the statement with `r.contract.dbl = e.contract.dbl` holds when a passed-out contract carries no doubling flag -/
+theorem readBack_fields_of_flags (e : LogEntry) (h : e.WF)
+    (hf : e.contract.isPassedOut = true → e.contract.x = false ∧ e.contract.xx = false) :
+    let r := e.readBack
+    r.boardId = e.boardId ∧ r.dealer = e.dealer ∧ r.vul = e.contract.vul ∧ (∀ p, (r.hands p).Perm (e.deal p)) ∧
+    r.bids = some e.bids ∧ r.contract.finalBid = e.contract.finalBid ∧ r.contract.dbl = e.contract.dbl ∧
+    r.contract.vul = e.contract.vul ∧ r.contract.declarer = e.contract.declarer ∧ r.declarer = e.contract.declarer ∧
+    r.play = e.play ∧ r.tricks = e.tricks ∧ r.scoreType = some e.scoring.value ∧
+    r.scores = some [(.NS, e.scoreNS), (.EW, e.scoreEW)] ∧ r.dda = e.dda ∧
+    r.players = some [(.N, e.north), (.E, e.east), (.S, e.south), (.W, e.west)] := by
+  obtain ⟨h1, h2, h3, h4, h5, h6, h7, h8⟩ := readBack_fields e h
+  refine ⟨h1, h2, h3, h4, h5, h6, ?_, h8⟩
+  rw [h7]
+  cases hpo : e.contract.isPassedOut with
+  | false => simp
+  | true =>
+    obtain ⟨hx, hxx⟩ := hf hpo
+    simp [Contract.dbl, hx, hxx]
+
+/-- the counterexample to the unconditional `r.contract.dbl = e.contract.dbl` : passed out with the `x` flag set -/
+def readBackCex : LogEntry where
+  boardId := []
+  north := []
+  east := []
+  south := []
+  west := []
+  dealer := .N
+  deal := fun _ => []
+  scoring := .MP
+  bids := []
+  contract := ⟨none, true, false, .none, none⟩
+  play := none
+  tricks := none
+  scoreNS := 0
+  scoreEW := 0
+  dda := none
+
+theorem readBackCex_wf : readBackCex.WF := by
+  constructor <;> simp [readBackCex, HandsWF, Contract.isPassedOut]
+
+theorem readBackCex_dbl : readBackCex.readBack.contract.dbl ≠ readBackCex.contract.dbl := by decide
+
+/-! ### schema conformance -/
+theorem validateItems_map {α : Type} (s : Schema) (f : α → Json) (l : List α) :
+    validateItems (.some s) (l.map f) = l.all fun x => validate s (f x) := by
+  induction l with
+  | nil => simp [validateItems]
+  | cons a r ih => simp [validateItems, ih]
+
+theorem validateProps_cons_of (k : List Char) (s : Schema) (rest : SProps) (l : List (List Char × Json))
+    (h1 : ∀ v, lookupKey k l = some v → validate s v = true) (h2 : validateProps rest l = true) :
+    validateProps (.cons k s rest) l = true := by
+  simp only [validateProps, h2, Bool.and_true]
+  split
+  · rename_i v hv; exact h1 v hv
+  · rfl
+
+theorem lookupKey_map_some {α : Type} (k : List Char) (f : α → List Char × Json) (l : List α) (v : Json)
+    (h : lookupKey k (l.map f) = some v) : ∃ x ∈ l, v = (f x).2 := by
+  induction l with
+  | nil => simp [lookupKey] at h
+  | cons a r ih =>
+    rw [List.map_cons] at h
+    cases hf : f a with
+    | mk k' v' =>
+      rw [hf] at h
+      simp only [lookupKey] at h
+      split at h
+      · cases h; exact ⟨a, List.mem_cons_self, by rw [hf]⟩
+      · obtain ⟨x, hx, e⟩ := ih h
+        exact ⟨x, List.mem_cons_of_mem _ hx, e⟩
+
+theorem lookupKey_map_isSome {α : Type} (f : α → List Char × Json) (l : List α) (x : α) (hx : x ∈ l) :
+    (lookupKey (f x).1 (l.map f)).isSome = true := by
+  induction l with
+  | nil => cases hx
+  | cons a r ih =>
+    rw [List.map_cons]
+    cases hf : f a with
+    | mk k' v' =>
+      simp only [lookupKey]
+      split
+      · rfl
+      · rcases List.mem_cons.1 hx with rfl | hx
+        · rename_i hne; rw [hf] at hne; simp at hne
+        · exact ih hx
+
+abbrev strS : Schema := Schema.mk [.string] .nil [] .none
+abbrev intS : Schema := Schema.mk [.integer] .nil [] .none
+abbrev strArrS : Schema := Schema.mk [.array] .nil [] (.some strS)
+
+theorem validate_strS (s : List Char) : validate strS (.str s) = true := by
+  simp [validate, JType.accepts]
+theorem validate_intS (n : Int) : validate intS (.int n) = true := by
+  simp [validate, JType.accepts]
+theorem validate_strArrS {α : Type} (f : α → List Char) (l : List α) :
+    validate strArrS (.arr (l.map fun x => Json.str (f x))) = true := by
+  simp [validate, JType.accepts, validateItems_map]
+
+abbrev dealS : Schema :=
+  Schema.mk [.object] (.cons "N".toList strArrS (.cons "E".toList strArrS (.cons "S".toList strArrS
+    (.cons "W".toList strArrS .nil)))) ["N".toList, "E".toList, "S".toList, "W".toList] .none
+
+theorem validate_dealS (h : Hands) : validate dealS (dealJson h) = true := by
+  simp [validate, JType.accepts, validateProps, validateItems_map, lookupKey, dealJson, jkey, jstr]
+
+abbrev rowS : Schema :=
+  Schema.mk [.object] (.cons "C".toList intS (.cons "D".toList intS (.cons "H".toList intS (.cons "S".toList intS
+    (.cons "NT".toList intS .nil))))) ["C".toList, "D".toList, "H".toList, "S".toList, "NT".toList] .none
+
+theorem validate_rowS (row : List (Suit × Int)) (hc : ∀ s ∈ Suit.all, s ∈ row.map (·.1)) :
+    validate rowS (.obj (row.map fun (s, v) => (s.name, Json.int v))) = true := by
+  have hi : ∀ k v, lookupKey k (row.map fun (x : Suit × Int) => (x.1.name, Json.int x.2)) = some v →
+      validate intS v = true := by
+    intro k v hv
+    obtain ⟨x, _, rfl⟩ := lookupKey_map_some _ _ _ _ hv
+    exact validate_intS _
+  have hr : ∀ s : Suit, (lookupKey s.name (row.map fun (x : Suit × Int) => (x.1.name, Json.int x.2))).isSome = true := by
+    intro s
+    have hs : s ∈ Suit.all := by cases s <;> decide
+    obtain ⟨x, hx, rfl⟩ := List.mem_map.1 (hc s hs)
+    exact lookupKey_map_isSome (fun (x : Suit × Int) => (x.1.name, Json.int x.2)) row x hx
+  rw [validate]
+  simp only [JType.accepts, List.all_cons, List.all_nil]
+  refine Bool.and_eq_true_iff.2 ⟨by simp, Bool.and_eq_true_iff.2 ⟨?_, ?_⟩⟩
+  · simp
+    exact ⟨hr .C, hr .D, hr .H, hr .S, hr .NT⟩
+  · repeat' apply validateProps_cons_of
+    all_goals first | exact hi _ | simp [validateProps]
+
+abbrev ddaS : Schema :=
+  Schema.mk [.object] (.cons "N".toList rowS (.cons "E".toList rowS (.cons "S".toList rowS
+    (.cons "W".toList rowS .nil)))) [] .none
+
+theorem validate_ddaS (d : Dda) (hc : DdaComplete d) : validate ddaS (ddaJson d) = true := by
+  have hi : ∀ k v, lookupKey k (d.map fun (x : Seat × List (Suit × Int)) =>
+      (x.1.name, Json.obj (x.2.map fun (s, v) => (s.name, Json.int v)))) = some v → validate rowS v = true := by
+    intro k v hv
+    obtain ⟨x, hx, rfl⟩ := lookupKey_map_some _ _ _ _ hv
+    exact validate_rowS x.2 (hc x hx)
+  rw [ddaJson, validate]
+  refine Bool.and_eq_true_iff.2 ⟨by simp [JType.accepts], ?_⟩
+  simp only [List.all_nil, Bool.true_and]
+  repeat' apply validateProps_cons_of
+  all_goals first | exact hi _ | simp [validateProps]
+
+abbrev playersS : Schema :=
+  Schema.mk [.object] (.cons "N".toList strS (.cons "E".toList strS (.cons "S".toList strS
+    (.cons "W".toList strS .nil)))) [] .none
+abbrev trickS : Schema :=
+  Schema.mk [.object] (.cons "leader".toList strS (.cons "cards".toList strArrS .nil)) [] .none
+abbrev scoresS : Schema :=
+  Schema.mk [.object] (.cons "NS".toList intS (.cons "EW".toList intS .nil)) [] .none
+
+/-- the schema of one log record -/
+abbrev logItemS : Schema :=
+  Schema.mk [.object]
+    (.cons "players".toList playersS
+    (.cons "board_id".toList strS
+    (.cons "dealer".toList strS
+    (.cons "deal".toList dealS
+    (.cons "vulnerability".toList strS
+    (.cons "bid_history".toList strArrS
+    (.cons "contract".toList strS
+    (.cons "declarer".toList (Schema.mk [.string, .null] .nil [] .none)
+    (.cons "play_history".toList (Schema.mk [.array, .null] .nil [] (.some trickS))
+    (.cons "taken_trick".toList (Schema.mk [.integer, .null] .nil [] .none)
+    (.cons "score_type".toList strS
+    (.cons "scores".toList scoresS
+    (.cons "dda".toList ddaS .nil)))))))))))))
+    ["board_id".toList, "dealer".toList, "deal".toList, "vulnerability".toList, "declarer".toList,
+      "contract".toList, "taken_trick".toList] .none
+
+/-- the schema of one board-setting record -/
+abbrev settingItemS : Schema :=
+  Schema.mk [.object]
+    (.cons "board_id".toList strS
+    (.cons "dealer".toList strS
+    (.cons "deal".toList dealS
+    (.cons "vulnerability".toList strS
+    (.cons "dda".toList ddaS .nil)))))
+    ["board_id".toList, "dealer".toList, "deal".toList, "vulnerability".toList] .none
+
+/-- the generated schema terms, structured -/
+theorem logSchema_eq : Generated.logSchema =
+    Schema.mk [.object] (.cons "logs".toList (Schema.mk [.array] .nil [] (.some logItemS)) .nil) [] .none := rfl
+theorem settingSchema_eq : Generated.settingSchema =
+    Schema.mk [.object] (.cons "board_settings".toList (Schema.mk [.array] .nil [] (.some settingItemS)) .nil) []
+      .none := rfl
+
+theorem validate_playersS (a b c d : List Char) :
+    validate playersS (.obj [(jkey "N", jstr a), (jkey "E", jstr b), (jkey "S", jstr c), (jkey "W", jstr d)]) = true := by
+  simp [validate, JType.accepts, validateProps, lookupKey, jkey, jstr]
+
+theorem validate_trickS (t : Trick) : validate trickS (trickJson t) = true := by
+  simp [validate, JType.accepts, validateProps, validateItems_map, lookupKey, trickJson, jkey, jstr]
+
+theorem validate_scoresS (a b : Int) :
+    validate scoresS (.obj [(jkey "NS", .int a), (jkey "EW", .int b)]) = true := by
+  simp [validate, JType.accepts, validateProps, lookupKey, jkey]
+
+theorem validate_declarer (b : Bool) (s : List Char) :
+    validate (Schema.mk [.string, .null] .nil [] .none) (if b then .null else jstr s) = true := by
+  cases b <;> simp [validate, JType.accepts, jstr]
+
+theorem validate_play (p : Option (List Trick)) :
+    validate (Schema.mk [.array, .null] .nil [] (.some trickS))
+      (match p with | none => .null | some ts => .arr (ts.map trickJson)) = true := by
+  cases p with
+  | none => simp [validate, JType.accepts]
+  | some ts =>
+    have := validate_trickS
+    simp [validate, JType.accepts, validateItems_map] at this ⊢
+    intro t _
+    exact this t
+
+theorem validate_tricks (t : Option Int) :
+    validate (Schema.mk [.integer, .null] .nil [] .none) (match t with | none => .null | some n => .int n) = true := by
+  cases t <;> simp [validate, JType.accepts]
+
+theorem validate_logItem (e : LogEntry) (hc : ∀ d, e.dda = some d → DdaComplete d) :
+    validate logItemS (logJson e) = true := by
+  unfold logJson
+  rw [validate]
+  refine Bool.and_eq_true_iff.2 ⟨by simp [JType.accepts], Bool.and_eq_true_iff.2 ⟨?_, ?_⟩⟩
+  · simp [lookupKey, jkey]
+  · repeat' apply validateProps_cons_of
+    all_goals try (simp [validateProps]; done)
+    all_goals intro v hv
+    all_goals cases hd : e.dda
+    all_goals simp [hd, lookupKey, jkey] at hv
+    all_goals subst hv
+    all_goals first
+      | exact validate_strS _
+      | exact validate_playersS _ _ _ _
+      | exact validate_dealS _
+      | exact validate_strArrS _ _
+      | exact validate_declarer _ _
+      | exact validate_play _
+      | exact validate_tricks _
+      | exact validate_scoresS _ _
+      | exact validate_ddaS _ (hc _ hd)
+
+theorem validate_settingItem (e : SettingEntry) (hc : ∀ d, e.dda = some d → DdaComplete d) :
+    validate settingItemS (settingJson e) = true := by
+  unfold settingJson
+  rw [validate]
+  refine Bool.and_eq_true_iff.2 ⟨by simp [JType.accepts], Bool.and_eq_true_iff.2 ⟨?_, ?_⟩⟩
+  · simp [lookupKey, jkey]
+  · repeat' apply validateProps_cons_of
+    all_goals try (simp [validateProps]; done)
+    all_goals intro v hv
+    all_goals cases hd : e.dda
+    all_goals simp [hd, lookupKey, jkey] at hv
+    all_goals subst hv
+    all_goals first
+      | exact validate_strS _
+      | exact validate_dealS _
+      | exact validate_ddaS _ (hc _ hd)
+
+theorem validate_doc {α : Type} (tag : String) (item : Schema) (f : α → Json) (l : List α)
+    (h : ∀ x ∈ l, validate item (f x) = true) :
+    validate (Schema.mk [.object] (.cons tag.toList (Schema.mk [.array] .nil [] (.some item)) .nil) [] .none)
+      (.obj [(jkey tag, .arr (l.map f))]) = true := by
+  simp [validate, validateProps, lookupKey, jkey, JType.accepts, validateItems_map]
+  exact h
+
+/-- every log document conforms to the published log schema (complete double-dummy rows, as the schema requires) -/
+theorem validate_logDoc (es : List LogEntry)
+    (hc : ∀ e ∈ es, ∀ d, e.dda = some d → DdaComplete d ∧ DdaWF d) :
+    validate Generated.logSchema (logDoc es) = true := by
+  rw [logSchema_eq]
+  exact validate_doc "logs" logItemS logJson es fun e he => validate_logItem e fun d hd => (hc e he d hd).1
+
+theorem validate_settingsDoc (es : List SettingEntry)
+    (hc : ∀ e ∈ es, ∀ d, e.dda = some d → DdaComplete d ∧ DdaWF d) :
+    validate Generated.settingSchema (settingsDoc es) = true := by
+  rw [settingSchema_eq]
+  exact validate_doc "board_settings" settingItemS settingJson es fun e he =>
+    validate_settingItem e fun d hd => (hc e he d hd).1
+
 end Bridge
